@@ -2,6 +2,7 @@ package mon
 
 import (
 	"fmt"
+	"math"
 	"math/rand/v2"
 	"sort"
 
@@ -32,16 +33,30 @@ type metaSchema struct {
 
 // fixed-point conversion of C04: floats are compared at two decimals. Generated floats are chosen so
 // that truncation, rounding and floor of v*100 agree (multiples of 0.25, and (n+0.3)/100 for n>=0).
-func fx(v float64) int64 { return int64(v * 100) }
+// For NEGATIVE floats with more than two decimals the three usual readings of "two-decimal fixed point" differ
+// (truncate towards zero, floor, round to nearest): the property does not pick one, only that stored values and
+// filter operands are converted the same way. The model is therefore evaluated under each reading (fxMode) and an
+// answer equal to any of them is accepted (metaExpect).
+func fxWith(mode int, v float64) int64 {
+	switch mode {
+	case 1:
+		return int64(math.Floor(v * 100))
+	case 2:
+		return int64(math.Round(v * 100))
+	}
+	return int64(v * 100)
+}
 
-func numKey(t fieldType, v any) int64 {
+func fx(v float64) int64 { return fxWith(0, v) }
+
+func (m *metaModel) numKey(t fieldType, v any) int64 {
 	switch x := v.(type) {
 	case int:
 		return int64(x)
 	case int64:
 		return x
 	case float64:
-		return fx(x)
+		return fxWith(m.fxMode, x)
 	}
 	panic(fmt.Sprintf("numKey: %T", v))
 }
@@ -49,6 +64,7 @@ func numKey(t fieldType, v any) int64 {
 type metaModel struct {
 	schema *metaSchema
 	docs   map[uint32]map[string]any
+	fxMode int // 0 truncate, 1 floor, 2 round
 }
 
 func newMetaModel(s *metaSchema) *metaModel {
@@ -81,21 +97,21 @@ func (m *metaModel) evalFilter(f comet.Filter, d map[string]any, types map[strin
 	if ft.numeric() {
 		switch f.Operator {
 		case comet.OpEqual, "":
-			return has && numKey(ft, v) == numKey(ft, f.Value), true
+			return has && m.numKey(ft, v) == m.numKey(ft, f.Value), true
 		case comet.OpNotEqual:
-			return has && numKey(ft, v) != numKey(ft, f.Value), true
+			return has && m.numKey(ft, v) != m.numKey(ft, f.Value), true
 		case comet.OpGreaterThan:
-			return has && numKey(ft, v) > numKey(ft, f.Value), true
+			return has && m.numKey(ft, v) > m.numKey(ft, f.Value), true
 		case comet.OpGreaterThanOrEqual:
-			return has && numKey(ft, v) >= numKey(ft, f.Value), true
+			return has && m.numKey(ft, v) >= m.numKey(ft, f.Value), true
 		case comet.OpLessThan:
-			return has && numKey(ft, v) < numKey(ft, f.Value), true
+			return has && m.numKey(ft, v) < m.numKey(ft, f.Value), true
 		case comet.OpLessThanOrEqual:
-			return has && numKey(ft, v) <= numKey(ft, f.Value), true
+			return has && m.numKey(ft, v) <= m.numKey(ft, f.Value), true
 		case comet.OpRange:
-			return has && numKey(ft, v) >= numKey(ft, f.Value) && numKey(ft, v) <= numKey(ft, f.Value2), true
+			return has && m.numKey(ft, v) >= m.numKey(ft, f.Value) && m.numKey(ft, v) <= m.numKey(ft, f.Value2), true
 		case "not_range": // Not(range): complement inside the universe of documents carrying the field
-			return has && !(numKey(ft, v) >= numKey(ft, f.Value) && numKey(ft, v) <= numKey(ft, f.Value2)), true
+			return has && !(m.numKey(ft, v) >= m.numKey(ft, f.Value) && m.numKey(ft, v) <= m.numKey(ft, f.Value2)), true
 		}
 		return false, false
 	}
@@ -145,7 +161,36 @@ type modelFilter struct {
 	desc  string
 }
 
-// evalGroups: OR over groups of AND over filters; empty -> all live documents.
+// A group whose first element is the marker below is a FilterGroup{Logic: OR}: the union of its filters
+// (comet's public FilterGroup API; an empty group matches every document under either logic).
+const opOrGroupMarker comet.Operator = "\x00or-group"
+
+func orGroupMarker() modelFilter {
+	f := comet.Filter{Operator: opOrGroupMarker}
+	return modelFilter{impl: f, model: f, desc: "ANY-OF:"}
+}
+
+func splitGroup(g []modelFilter) (isOr bool, fs []modelFilter) {
+	if len(g) > 0 && g[0].impl.Operator == opOrGroupMarker {
+		return true, g[1:]
+	}
+	return false, g
+}
+
+// cometGroup builds the FilterGroup handed to comet.
+func cometGroup(g []modelFilter) *comet.FilterGroup {
+	isOr, fs := splitGroup(g)
+	fg := &comet.FilterGroup{Logic: comet.AND}
+	if isOr {
+		fg.Logic = comet.OR
+	}
+	for _, f := range fs {
+		fg.Filters = append(fg.Filters, f.impl)
+	}
+	return fg
+}
+
+// evalGroups: OR over groups of AND (or, for marked groups, OR) over filters; empty -> all live documents.
 func (m *metaModel) evalGroups(groups [][]modelFilter, types map[string]fieldType) (ids map[uint32]bool, sharp bool) {
 	ids = map[uint32]bool{}
 	sharp = true
@@ -156,17 +201,20 @@ func (m *metaModel) evalGroups(groups [][]modelFilter, types map[string]fieldTyp
 		}
 		any := false
 		for _, g := range groups {
-			all := true
-			for _, f := range g {
+			isOr, fs := splitGroup(g)
+			all, some := true, false
+			for _, f := range fs {
 				mt, ok := m.evalFilter(f.model, d, types)
 				if !ok {
 					sharp = false
 				}
 				if !mt {
 					all = false
+				} else {
+					some = true
 				}
 			}
-			if all {
+			if (!isOr && all) || (isOr && (some || len(fs) == 0)) {
 				any = true
 			}
 		}
@@ -218,8 +266,13 @@ func genValue(rng *rand.Rand, t fieldType) any {
 		}
 		return v
 	default:
-		if rng.IntN(2) == 0 {
+		switch rng.IntN(6) {
+		case 0, 1, 2:
 			return float64(rng.IntN(81)-40) * 0.25 // exact, incl. negatives
+		case 3:
+			// negative with more than two decimals, or two decimals that are not exact in binary (-1.1, -0.29):
+			// truncate / floor / round of v*100 differ; every reading applied consistently is accepted
+			return -[]float64{1.1, 0.29, 19.99, 2.345, 0.3, 0.07, 1.005, 12.349, 0.001, 7.777}[rng.IntN(10)]
 		}
 		return (float64(rng.IntN(2000)) + 0.3) / 100 // > 2 decimals, non-negative
 	}
@@ -278,7 +331,7 @@ func genLeaf(rng *rand.Rand, m *metaModel, absentField bool) modelFilter {
 			f = comet.Lte(name, op())
 		case 6, 7:
 			a, b := op(), op()
-			if numKey(t, a) > numKey(t, b) && rng.IntN(4) > 0 {
+			if m.numKey(t, a) > m.numKey(t, b) && rng.IntN(4) > 0 {
 				a, b = b, a
 			}
 			f = comet.Range(name, a, b)
